@@ -435,3 +435,65 @@ fn c21_pool_write_stays_in_the_buffer_14_collateral_sum_short() {
 fn c21_pool_write_stays_in_the_buffer_15_total_borrowing() {
     pool_writes_stay_in_the_buffer(15, 16)
 }
+
+/// The same statement at the level the program uses it: two consecutive real `RevertibleMarket`s
+/// over one market account (hand-built `AccountInfo` + the real `AccountLoader`); the first
+/// writes the liquidity pool and is abandoned (dropped without commit), the second must read the
+/// stored value.
+//@ prop=C21 tier=experimental kind=hold
+//@ enc=RevertibleMarket::new (start of an operation), impl BaseMarket/BaseMarketMut for RevertibleMarket (liquidity_pool, liquidity_pool_mut), RevertibleBuffer::{start_revertible_operation, pool, pool_mut}, AccountLoader::{try_from, load_mut}
+//@ bound=a zero market account in which the buffer revision (< u64::MAX - 1) and the stored and buffered liquidity pool copies are arbitrary (revision invariant assumed), an arbitrary i128 delta written by the abandoned operation; virtual inventories absent; unwind 40
+//@ stubs=alloc::fmt::format, sol_log, CoreError::name/Display, u128::_fmt/u64::_fmt empty
+//@ args=--default-unwind,40
+//@ timeout=1500
+#[kani::proof]
+#[kani::stub(alloc::fmt::format, crate::stubs::fmt_format)]
+#[kani::stub(gmsol_store::CoreError::name, crate::stubs::core_error_name)]
+#[kani::stub(<gmsol_store::CoreError as std::fmt::Display>::fmt, crate::stubs::fmt_core_error)]
+#[kani::stub(anchor_lang::solana_program::log::sol_log, crate::stubs::sol_log)]
+#[kani::stub(u128::_fmt, crate::stubs::u128_fmt)]
+#[kani::stub(u64::_fmt, crate::stubs::u64_fmt)]
+fn c21_an_abandoned_market_operation_is_invisible_to_the_next_one() {
+    use anchor_lang::prelude::{AccountInfo, AccountLoader};
+    use gmsol_model::{BaseMarket, BaseMarketMut, Pool as _};
+    let mut acct = crate::acct::MarketAccountData::zeroed();
+    {
+        let m = acct.market_mut();
+        *rv::raw_buffer_rev_mut(m) = kani::any();
+        let mut b = 0;
+        while b < 2 {
+            let ps = rv::raw_pool_storage_mut(m, PoolKind::Primary, b == 1).expect("pool storage");
+            let w: [u128; 4] = kani::any();
+            *ps = unsafe { std::mem::transmute::<[u128; 4], gmsol_store::states::PoolStorage>(w) };
+            b += 1;
+        }
+        kani::assume(inv(m));
+        kani::assume(rv::rev(m) < u64::MAX - 1);
+    }
+    let stored = *acct.market().try_pool(PoolKind::Primary).ok().unwrap();
+    let key = Pubkey::new_from_array([7; 32]);
+    let owner = gmsol_store::ID;
+    let mut lamports = 1u64;
+    let info = AccountInfo::new(&key, false, true, &mut lamports, acct.bytes_mut(), &owner, false, 0);
+    let ekey = Pubkey::new_from_array([9; 32]);
+    let mut elamports = 1u64;
+    let mut edata: [u8; 0] = [];
+    let einfo = AccountInfo::new(&ekey, false, false, &mut elamports, &mut edata[..], &owner, false, 0);
+    let loader = AccountLoader::<Market>::try_from(&info).expect("loader");
+    let delta: i128 = kani::any();
+    let mut wrote = false;
+    {
+        // operation 1: reads the stored pool, writes, and is abandoned
+        let mut op1 = gmsol_store::verif_hooks::revertible_market(&loader, &einfo, 255).expect("operation 1");
+        assert!(same_pool(op1.liquidity_pool().unwrap(), &stored), "C21: an operation did not start from stored state");
+        if let Ok(p) = op1.liquidity_pool_mut() {
+            wrote = p.apply_delta_to_long_amount(&delta).is_ok();
+        }
+    }
+    {
+        // operation 2 must not see what operation 1 left behind
+        let op2 = gmsol_store::verif_hooks::revertible_market(&loader, &einfo, 255).expect("operation 2");
+        assert!(same_pool(op2.liquidity_pool().unwrap(), &stored), "C21: an operation read writes left behind by an abandoned one");
+    }
+    kani::cover!(wrote && delta != 0);
+}
